@@ -75,9 +75,10 @@ func storageRouting(inflows, laterals,  rainfall, evap data.ND1Float64,
 			Koffset = Qlimit * Klimit * (1.0 - x) / x
 		}
 	}
-	qi := 0.0
-	outflow := 0.0
-	storage := 0.0
+	// Resume from the states handed in (all zero for a fresh run)
+	qi := bias*prevInflow + (1.0-bias)*prevOutflow
+	outflow := prevOutflow
+	storage := s
 	inflow := 0.0
 
 	for i := 0; i < n; i++ {
